@@ -40,7 +40,9 @@ CHECKS = [
           'every feasible path.  K1: UTXO table layout round trip with every key/value byte of 2-3 records symbolic '
           '(prefix+index collisions included) through the real flush_utxo_db / spend_utxo / all_utxos / lookup_utxos.  '
           'K2: one inductive step - advance_block of one symbolic block (and its backup) from an arbitrary valid '
-          'flushed state of 2-3 fully symbolic UTXO records.',
+          'flushed state of 2-3 fully symbolic UTXO records.  ODB: forward indexing through the real OnDiskBlock (block '
+          'files, prefetcher, chunked reader with the chunk scaled down so blocks span several chunks), concrete content, '
+          'one shape under a solver-chosen schedule deviation.',
   'note': 'Trusted: CPython, z3, symx proxies and shims (native witness replay on real LevelDB), MemStore/MemFS as '
           'models of LevelDB and files, sha256 as injective uninterpreted function (script-hash prefix collisions '
           'free), sorted() over symbolic keys in batch-building loops taken as order-insensitive. Outside: chains '
